@@ -376,26 +376,36 @@ deriving DecidableEq, Repr
 def DateTime.valid (t : DateTime) : Bool :=
   validDate t.year t.month t.day && t.hour ≤ 23 && t.minute ≤ 59 && t.second ≤ 59 && t.micro ≤ 999999
 
+/-- `cls(*args)`: the `datetime` constructor checks every field -/
+def checked (t : DateTime) : Except StrpErr DateTime := if t.valid then .ok t else .error .outOfRange
+
+/-- `leap_year_fix`: no year, 29 February -/
+def leapFixOf (a : Acc) : Bool := a.year.isNone && a.month == 2 && a.day == 29
+
+/-- the year the calendar computations use: the one read, else 1900 (1904 under `leap_year_fix`) -/
+def yearOf (a : Acc) : Nat :=
+  match a.year with
+  | some y => y
+  | none => if leapFixOf a then 1904 else 1900
+
+/-- year, month, day after the `julian` computations -/
+def ymdOf (year : Nat) (a : Acc) : Except StrpErr (Nat × Nat × Nat) :=
+  match a.julian with
+  | none =>
+    -- `julian = datetime_date(year, month, day).toordinal() - …`: the constructor checks the date
+    if validDate year a.month a.day then .ok (year, a.month, a.day) else .error .outOfRange
+  | some j =>
+    -- `datetime_date.fromordinal((julian - 1) + datetime_date(year, 1, 1).toordinal())`
+    if 1 ≤ year ∧ year ≤ 9999 then dateOfYday year j else .error .outOfRange
+
 /-- `_strptime` after the loop, then `_strptime_datetime`: `cls(*args)` -/
 def finish (a : Acc) : Except StrpErr DateTime :=
-  let leapFix := a.year.isNone && a.month == 2 && a.day == 29
-  let year := match a.year with
-    | some y => y
-    | none => if leapFix then 1904 else 1900
-  let ymd : Except StrpErr (Nat × Nat × Nat) :=
-    match a.julian with
-    | none =>
-      -- `julian = datetime_date(year, month, day).toordinal() - …`: the constructor checks the date
-      if validDate year a.month a.day then .ok (year, a.month, a.day) else .error .outOfRange
-    | some j =>
-      -- `datetime_date.fromordinal((julian - 1) + datetime_date(year, 1, 1).toordinal())`
-      if 1 ≤ year ∧ year ≤ 9999 then dateOfYday year j else .error .outOfRange
-  match ymd with
+  match ymdOf (yearOf a) a with
   | .error e => .error e
   | .ok (y, m, d) =>
-    let t : DateTime := { year := if leapFix then 1900 else y, month := m, day := d, hour := a.hour, minute := a.minute,
-                          second := a.second, micro := a.fraction }
-    if t.valid then .ok t else .error .outOfRange
+    -- `if leap_year_fix: year = 1900`
+    checked { year := if leapFixOf a then 1900 else y, month := m, day := d, hour := a.hour, minute := a.minute,
+              second := a.second, micro := a.fraction }
 
 /-- `datetime.strptime(text, fmt)` -/
 def strptime (T : Tables) (fmt text : Str) : Except StrpErr DateTime :=
